@@ -63,11 +63,24 @@ PROPS = {
                                  "collision-freedom hypothesis keysFresh (renamed keys pairwise distinct and not equal to another original key of the same ordered mapping): a mapping cannot keep both entries; the model mirrors what the code does there and the correspondence compares it"],
         explanation="interp = mapStrings for every step kind / nesting depth / transformer (Lean), error propagation, signature untouched, structure preserved; visit table regenerated by a taint run; correspondence with table-driven transformer; direct single-expansion oracle; repeated runs for map-order determinism.",
     ),
+    "C10": dict(
+        level="proof", gen=False, corr_name="interpolateEnvBlock (driver mode c10)",
+        trusted_base=COMMON_TB + ["buildkite/interpolate: expansion is a parameter `expand` of the theorems (it sees the environment only through lookups); in the correspondence the library's own parser supplies the AST and the Expand methods are mirrored (Model/ExpandAst)",
+                                 "the in-iteration Replace semantics on the ordered map is the abstract one proved equal to the slot-level code in C05 (stateless callback); the stateful walk is tied by correspondence",
+                                 "collision-freedom hypothesis NoCollide for 'block = specification' (renamed names pairwise distinct and not another entry's original name); the precedence theorems need no such hypothesis"],
+        explanation="Env-block fold proved equal to the top-to-bottom specification; runtime-precedence invariant during and after the walk; write-back; errors; tied by correspondence through the package's own internal/env (case-sensitive and upper-casing) and a direct replay oracle with the real library.",
+    ),
 }
 
 NOT_APPLICABLE = {}
 
 MANIFEST_TEXT = {
+    "C10": dict(
+        text="Kernel-checked proofs (Lean 4) about a mirror of interpolateEnvBlock for an arbitrary expansion function and name-normaliser: the in-place walk equals the top-to-bottom specification (entry i expanded with the caller environment plus all earlier entries, same positions), the expanded values are written back to the caller, and with runtime precedence every name the caller already had keeps the caller's value in every expansion and afterwards while the block records the pipeline's value; lookups go through the environment's own name equality; an expansion error aborts with that entry's error. Tied by correspondence through the package's own env implementation (both case modes) and by a direct replay with the real interpolation library.",
+        design_ref="DESIGN.md §6 C10",
+        note="Trusted: Lean kernel; buildkite/interpolate parser (AST supplied by the real parser) and its Expand semantics as mirrored in Model/ExpandAst (differentially checked); the correspondence. NoCollide hypothesis on 'block = spec' only.",
+        technique="Lean 4 proofs (fold = specification, invariants over the walk) + correspondence with library-AST-driven expansion + replay oracle",
+    ),
     "C04": dict(
         text="Kernel-checked proofs (Lean 4) that a mirror of every interpolate method and walker equals 'apply the expansion once to every string' - keys and values, any depth, all step kinds, unknown fields, plugin configs, matrix, cache - for every transformer, with signatures untouched, step structure preserved, errors propagated exactly from a visited string, and the result a function of the input (Go-map walks use a sorted snapshot). The table of visited positions is re-measured on the compiled code by a taint run on every check and must equal the table the model implements. Tied by correspondence (real library expansions passed as a table) on generated pipelines with $-forms in every position, big Go maps, repeated runs, plus a direct single-expansion oracle on the implementation.",
         design_ref="DESIGN.md §6 C04",
